@@ -250,9 +250,12 @@ func (g *gen) stmt() {
 		}
 	case "ifacecall":
 		if b, ok := g.pickVar(TBox, "box"); ok {
-			if g.chance(50, "getput") {
+			switch g.intn(3, "getput") {
+			case 0:
 				g.newVar(TStr, b.name+".Get()")
-			} else {
+			case 1:
+				g.newVar(TStr, b.name+".peek()") // unexported interface method
+			default:
 				g.emit("%s.Put(%s)", b.name, g.expr(TStr, 1))
 			}
 			g.feat("iface-call")
@@ -301,7 +304,36 @@ func (g *gen) stmt() {
 	case "for":
 		g.feat("for")
 		i := g.fresh()
-		g.emit("for %s := 0; %s < bound(%d); %s++ {", i, i, g.bit(), i)
+		if g.chance(20, "forever") {
+			// loop without header: the body block is its own predecessor when the body has no inner control flow
+			g.feat("for-single-block")
+			g.emit("%s := 0", i)
+			g.emit("for {")
+			g.nbits++
+			g.indent++
+			g.inLoop++
+			g.block(1 + g.intn(3, "forn"))
+			g.inLoop--
+			g.emit("%s++", i)
+			g.emit("if %s >= bound(%d) {", i, g.bit())
+			g.emit("\tbreak")
+			g.emit("}")
+			g.indent--
+			g.emit("}")
+			break
+		}
+		condVar := ""
+		if g.p.Go && len(g.varsOf(TPS)) > 0 && g.chance(40, "forcond") {
+			v, _ := g.pickVar(TPS, "forcondvar")
+			condVar = v.name
+		}
+		if condVar != "" {
+			// the loop header reads memory (first operand of &&) that the body may share with a goroutine
+			g.feat("for-cond-reads-memory")
+			g.emit("for %s := 0; %s.B != \"stop\" && %s < bound(%d); %s++ {", i, condVar, i, g.bit(), i)
+		} else {
+			g.emit("for %s := 0; %s < bound(%d); %s++ {", i, i, g.bit(), i)
+		}
 		g.nbits++
 		g.indent++
 		g.inLoop++
@@ -1035,6 +1067,35 @@ func (g *gen) goStmt() {
 		return
 	}
 	g.feat("go")
+	if g.closureDepth == 0 && g.chance(15, "loopshare") {
+		// an object that becomes shared inside a loop: the loop header (condition) and the first statement of the body
+		// access it in every iteration, before and after the iteration that hands it to a goroutine
+		g.feat("go-shares-in-loop")
+		o, i := g.fresh(), g.fresh()
+		g.emit("%s := newS(%q)", o, "c"+o)
+		g.declare(o, TPS)
+		g.emit("for %s := 0; %s.B != \"stop\" && %s < 3; %s++ {", i, o, i, i)
+		g.indent++
+		g.emit("%s.A = %s", o, g.expr(TStr, 1))
+		g.emit("gstart()")
+		g.emit("go func() {")
+		g.indent++
+		g.emit("defer gdone()")
+		switch g.intn(3, "loopsharew") {
+		case 0:
+			g.emit("%s.B = %s", o, g.expr(TStr, 1))
+		case 1:
+			g.emit("%s.A = %s.B", o, o)
+		default:
+			g.emit("%s.L[0] = %s.A", o, o)
+		}
+		g.indent--
+		g.emit("}()")
+		g.emit("yield()")
+		g.indent--
+		g.emit("}")
+		return
+	}
 	cs := g.callees()
 	if len(cs) > 0 && g.chance(35, "gocallee") {
 		f := cs[g.intn(len(cs), "gocallee2")]
